@@ -67,23 +67,22 @@ func minOfSortedPair(tb *TermBuilder, v ssa.Value) (a, b *Term, ok bool) {
 func ruleSeqhash(c *Ctx, prop string) {
 	if prop == "C04" {
 		c.Decided = []string{
-			"TERM-CANON: with x = U2T?(ToUpper(sequence)) (U->T exactly when type is RNA, applied after upper-casing) the digest input is Min{Rot(x),Rot(RC(x))} / Rot(x) / Min{x,RC(x)} / x for (circular,doubleStranded) = (1,1)/(1,0)/(0,1)/(0,0), for each accepted type; nothing else is hashed",
+			"TERM-CANON: with x = U2T?(ToUpper(sequence)) (U->T exactly when type is RNA, applied after upper-casing) the digest input is, in the algebra {x, RC, Rot, Min}, Min{Rot(x),Rot(RC(x))} / Rot(x) / Min{x,RC(x)} / x for (circular,doubleStranded) = (1,1)/(1,0)/(0,1)/(0,0), for each accepted type; nothing else is hashed",
 			"DEPEND: the raw sequence is used only as the operand of strings.ToUpper (case clause)",
-			"TERM-FORMAT: the type letter is the only part that differs between RNA and DNA spellings",
-			"prerequisites re-run: C11 complement table = oracle and involutive (strand clause), C12 rotation window (rotation clause)",
+			"prerequisites re-run: C11 complement table = oracle and involutive (strand clause), ReverseComplement = reversal of the complement, C12 rotation window (rotation clause)",
 		}
-		c.Undec = []string{"minimality of the rotation index (C12's undecided lemma): rotation invariance = TERM-CANON + 'Rot is canonical'", "collision behaviour of BLAKE3 (trusted)"}
+		c.Undec = []string{"minimality of the rotation index (C12's undecided lemma): rotation invariance = TERM-CANON + 'Rot is canonical'", "collision behaviour of BLAKE3 (trusted)", "canonical forms written outside the recognised idioms (reported as undecided)"}
 	} else {
 		c.Decided = []string{
-			"TERM-CANON as in C04 (the canonical representative per flag combination, exhaustive over the 4 valuations and 3 types)",
+			"TERM-CANON as in C04 (the canonical representative per flag combination, over the 4 valuations and 3 types)",
 			"TERM-FORMAT: result = \"v1_\" + T C S + \"_\" + hex(blake3.Sum256(canonical)[:]) with T in {DNA->D,RNA->R,PROTEIN->P}, C: circular->C else L, S: doubleStranded->D else S",
-			"GUARD: Sum256 is reached only for a known type, after the per-letter alphabet loop of that type over the same string that is hashed, and never for PROTEIN && doubleStranded; every error return is (\"\", non-nil)",
+			"GUARD: Sum256 is unreachable for an unknown type and for PROTEIN && doubleStranded; a per-letter membership test against the type's alphabet runs over the very string that is hashed; every error return is (\"\", non-nil)",
 			"TABLE: nucleotide alphabet contains the 15 IUPAC codes + U; protein alphabet = 20 residues + UO*BXZ; ALPHABET-COMPLEMENT: after normalisation every accepted nucleotide letter is in the complement table's domain and the table is injective on the accepted set",
 		}
 		c.Undec = []string{"collision resistance of BLAKE3 (trusted)", "minimality of Rot (C12)"}
 	}
 	c.Trusted = []string{"lukechampine.com/blake3.Sum256, encoding/hex", "strings.ToUpper/ReplaceAll/Contains, sort.Strings"}
-	c.floor("TERM-CANON", 12)
+	c.floor("TERM-CANON", 11)
 	w := c.W
 	h := w.fn("seqhash", "Hash")
 	if h == nil || len(h.Params) != 4 {
@@ -91,8 +90,7 @@ func ruleSeqhash(c *Ctx, prop string) {
 		return
 	}
 	c.useFn(h)
-	pSeq, pType, pCirc, pDS := h.Params[0], h.Params[1], h.Params[2], h.Params[3]
-	_ = pSeq
+	pType, pCirc, pDS := h.Params[1], h.Params[2], h.Params[3]
 	var sum *ssa.Call
 	nSum := 0
 	eachInstr(h, func(i ssa.Instruction) {
@@ -101,16 +99,32 @@ func ruleSeqhash(c *Ctx, prop string) {
 			nSum++
 		}
 	})
-	if nSum != 1 || calleeName(sum) != "lukechampine.com/blake3.Sum256" {
-		c.bad("TERM-CANON", "digest", h.Pos(), fmt.Sprintf("%d blake3 digest call sites, want exactly one blake3.Sum256", nSum))
+	if nSum != 1 {
+		c.undecided("TERM-CANON", "digest", h.Pos(), fmt.Sprintf("%d blake3 digest call sites in Hash, want exactly one", nSum))
+		return
+	}
+	if calleeName(sum) != "lukechampine.com/blake3.Sum256" {
+		c.bad("TERM-CANON", "digest", sum.Pos(), "the digest is "+calleeName(sum)+"; seqhash v1 is BLAKE3-256")
 		return
 	}
 	up := "call[strings.ToUpper](param[0])"
 	u2t := `call[strings.ReplaceAll](` + up + `, const["U"], const["T"])`
-	rot := func(x string) string { return "call[poly/seqhash.RotateSequence](" + x + ")" }
-	rc := func(x string) string { return "call[poly/transform.ReverseComplement](" + x + ")" }
-	typeLetter := map[string]string{"DNA": `const["D"]`, "RNA": `const["R"]`, "PROTEIN": `const["P"]`}
-	succ := func(tb *TermBuilder) *ssa.Return { return successReturn(tb, h, 1) }
+	typeLetter := map[string]string{"DNA": "D", "RNA": "R", "PROTEIN": "P"}
+	// are all conditions on the type parameter of a form the valuation can evaluate?
+	typeEvaluable := true
+	{
+		tb0 := newTB(h)
+		eachInstr(h, func(i ssa.Instruction) {
+			if ifi, ok := i.(*ssa.If); ok {
+				t := tb0.T(ifi.Cond)
+				if t.contains(func(x *Term) bool { return x.isParam(1) }) {
+					if !((t.isBin("==") || t.isBin("!=")) && (t.Args[0].Op == "const" || t.Args[1].Op == "const")) {
+						typeEvaluable = false
+					}
+				}
+			}
+		})
+	}
 	for _, typ := range []string{"DNA", "RNA", "PROTEIN"} {
 		for _, circ := range []bool{true, false} {
 			for _, ds := range []bool{true, false} {
@@ -119,7 +133,14 @@ func ruleSeqhash(c *Ctx, prop string) {
 				tb := newTB(h)
 				tb.Choose = env.choose
 				if typ == "PROTEIN" && ds {
-					c.check(!env.reach[sum.Block()], "GUARD", "rejects "+name, sum.Pos(), "the digest is unreachable for double-stranded proteins", "a double-stranded protein reaches the digest instead of being rejected")
+					st := holds
+					if env.reach[sum.Block()] {
+						st = broken
+						if !typeEvaluable {
+							st = unknown
+						}
+					}
+					c.judge(st, "GUARD", "rejects "+name, sum.Pos(), "the digest is unreachable for double-stranded proteins", "a double-stranded protein reaches the digest instead of being rejected")
 					continue
 				}
 				if !env.reach[sum.Block()] {
@@ -130,79 +151,31 @@ func ruleSeqhash(c *Ctx, prop string) {
 				if typ == "RNA" {
 					x = u2t
 				}
-				// digest argument: conv[[]byte](CANON)
-				arg := sum.Call.Args[0]
-				cv, isConv := arg.(*ssa.Convert)
-				good := false
-				got := "?"
-				if isConv {
-					canon := cv.X
-					if p, isPhi := canon.(*ssa.Phi); isPhi {
-						if r := env.choose(p); r != nil {
-							canon = r
-						}
-					}
-					var want string
-					switch {
-					case circ && ds:
-						a, b, ok := minOfSortedPair(tb, canon)
-						if ok {
-							got = "Min{" + a.String() + ", " + b.String() + "}"
-							pair := []string{a.String(), b.String()}
-							sort.Strings(pair)
-							wp := []string{rot(x), rot(rc(x))}
-							sort.Strings(wp)
-							good = pair[0] == wp[0] && pair[1] == wp[1]
-						}
-						want = "Min{Rot(x), Rot(RC(x))}"
-					case circ && !ds:
-						got = tb.T(canon).String()
-						good = got == rot(x)
-						want = "Rot(x)"
-					case !circ && ds:
-						a, b, ok := minOfSortedPair(tb, canon)
-						if ok {
-							got = "Min{" + a.String() + ", " + b.String() + "}"
-							pair := []string{a.String(), b.String()}
-							sort.Strings(pair)
-							wp := []string{x, rc(x)}
-							sort.Strings(wp)
-							good = pair[0] == wp[0] && pair[1] == wp[1]
-						}
-						want = "Min{x, RC(x)}"
-					default:
-						got = tb.T(canon).String()
-						good = got == x
-						want = "x"
-					}
-					if got == "?" {
-						got = tb.T(canon).String()
-					}
-					c.check(good, "TERM-CANON", name, sum.Pos(), "digest input = "+want+" with x = "+x, "digest input is "+short(got)+"; want "+want+" with x = "+x+" (rotate each strand first, then take the lesser; upper-case first, then U->T for RNA only)")
+				want := map[[2]bool]string{{true, true}: "Min{Rot(RC(x)), Rot(x)}", {true, false}: "Rot(x)", {false, true}: "Min{RC(x), x}", {false, false}: "x"}[[2]bool{circ, ds}]
+				cv, isConv := sum.Call.Args[0].(*ssa.Convert)
+				if !isConv {
+					c.undecided("TERM-CANON", name, sum.Pos(), "digest argument is not []byte(<canonical string>)")
 				} else {
-					c.bad("TERM-CANON", name, sum.Pos(), "digest argument is not []byte(<canonical string>)")
+					cz := &canonizer{tb: tb, env: env, x: x}
+					got := cz.of(cv.X)
+					st := holds
+					if got.String() != want {
+						st = unknown
+						if got.known() {
+							st = broken
+						}
+						// x itself written differently (e.g. U->T before upper-casing): same vocabulary, different arrangement
+						if !got.known() {
+							raw := tb.T(cz.resolve(cv.X))
+							if len(opaqueParts(raw, vocabOf(x, "call[poly/transform.ReverseComplement]", "call[poly/seqhash.RotateSequence]", "call[sort.Strings]"))) == 0 && misNormalised(raw, x) {
+								st = broken
+							}
+						}
+					}
+					c.judge(st, "TERM-CANON", name, sum.Pos(), "digest input = "+want+" with x = "+x, "digest input is "+got.String()+"; want "+want+" with x = "+x+" (rotate each strand first, then take the lesser; upper-case first, then U->T for RNA only)")
 				}
-				// TERM-FORMAT under this valuation
-				if sr := succ(tb); sr != nil {
-					parts := tb.T(sr.Results[0]).sumTerms()
-					var flat []string
-					for _, p := range parts {
-						flat = append(flat, p.String())
-					}
-					cl, sl := `const["L"]`, `const["S"]`
-					if circ {
-						cl = `const["C"]`
-					}
-					if ds {
-						sl = `const["D"]`
-					}
-					hex := "call[encoding/hex.EncodeToString](slice(" + tb.T(sum).String() + ", nil, nil))"
-					want1 := []string{`const["v1_"]`, typeLetter[typ], cl, sl, `const["_"]`, hex}
-					want2 := []string{`const["v1"]`, `const["_"]`, typeLetter[typ], cl, sl, `const["_"]`, hex}
-					okF := strings.Join(flat, " ") == strings.Join(want1, " ") || strings.Join(flat, " ") == strings.Join(want2, " ")
-					c.check(okF, "TERM-FORMAT", name, sr.Pos(), "v1_"+typeLetter[typ][7:8]+cl[7:8]+sl[7:8]+"_<64 hex digits of Sum256>", "result is "+short(strings.Join(flat, " + "))+"; want v1_ + type/topology/strand letters + _ + hex(Sum256(canonical)[:])")
-				} else {
-					c.bad("TERM-FORMAT", name, h.Pos(), "no single success return")
+				if prop == "C05" {
+					checkHashFormat(c, h, tb, env, sum, name, typeLetter[typ], circ, ds)
 				}
 			}
 		}
@@ -210,91 +183,86 @@ func ruleSeqhash(c *Ctx, prop string) {
 	// unknown type is rejected
 	{
 		env := newModeEnv(h, map[*ssa.Parameter]bool{}, map[*ssa.Parameter]string{pType: "<other>"})
-		c.check(!env.reach[sum.Block()], "GUARD", "rejects unknown sequenceType", sum.Pos(), "the digest is unreachable for a type other than DNA/RNA/PROTEIN", "an unknown sequenceType reaches the digest")
+		st := holds
+		if env.reach[sum.Block()] {
+			st = broken
+			if !typeEvaluable {
+				st = unknown
+			}
+		}
+		c.judge(st, "GUARD", "rejects unknown sequenceType", sum.Pos(), "the digest is unreachable for a type other than DNA/RNA/PROTEIN", "an unknown sequenceType reaches the digest")
 	}
 	tb := newTB(h)
 	// error returns well-formed
-	okErr := true
+	okErr := holds
 	for _, r := range returnsOf(h) {
 		e := tb.T(r.Results[1])
 		if e.Op == "const" {
 			continue
 		}
-		if !(tb.T(r.Results[0]).isConst(`""`) && (e.isCall("errors.New") || strings.HasPrefix(e.Name, "fmt.Errorf"))) {
-			okErr = false
+		v := tb.T(r.Results[0])
+		if !v.isConst(`""`) {
+			if v.Op == "const" || v.contains(func(x *Term) bool { return x.isCall("encoding/hex.EncodeToString") }) {
+				okErr = broken
+			} else if okErr == holds {
+				okErr = unknown
+			}
 		}
 	}
-	c.check(okErr, "GUARD", "error returns are (\"\", non-nil error)", h.Pos(), "every rejecting return yields an empty hash and an error", "a rejecting return yields a hash or a nil error")
-	// alphabet loops
-	type alpha struct {
-		typ   string
-		alpha string
-		over  string
-	}
-	var alphas []alpha
-	eachInstr(h, func(i ssa.Instruction) {
-		cl, ok := i.(*ssa.Call)
-		if !ok || calleeName(cl) != "strings.Contains" {
-			return
-		}
-		a, isStr := tb.T(cl.Call.Args[0]).constStr()
-		el := tb.T(cl.Call.Args[1])
-		if !isStr || !strings.HasPrefix(el.String(), "conv[string](extract[2](next(range(") {
-			return
-		}
-		// miss branch returns an error
-		var ifi *ssa.If
-		for _, r := range *cl.Referrers() {
-			if x, ok := r.(*ssa.If); ok {
-				ifi = x
-			}
-			if u, ok := r.(*ssa.UnOp); ok && u.Op == token.NOT {
-				for _, rr := range *u.Referrers() {
-					if x, ok := rr.(*ssa.If); ok {
-						ifi = x
-					}
-				}
-			}
-		}
-		if ifi == nil {
-			return
-		}
-		for _, typ := range []string{"DNA", "RNA", "PROTEIN"} {
-			env := newModeEnv(h, map[*ssa.Parameter]bool{}, map[*ssa.Parameter]string{pType: typ})
-			if env.reach[cl.Block()] {
-				etb := newTB(h)
-				etb.Choose = env.choose
-				over := etb.T(cl.Call.Args[1]).String()
-				alphas = append(alphas, alpha{typ, a, over})
-			}
-		}
-	})
+	c.judge(okErr, "GUARD", "error returns are (\"\", non-nil error)", h.Pos(), "every rejecting return yields an empty hash and an error", "a rejecting return also yields a hash value")
+	// alphabet membership tests in Hash's family
 	comp, _, haveComp := complementTable(c, "TERM-CANON")
+	tests := membershipTests(h)
 	for _, typ := range []string{"DNA", "RNA", "PROTEIN"} {
 		x := up
 		if typ == "RNA" {
 			x = u2t
 		}
-		var mine []alpha
-		for _, a := range alphas {
-			if a.typ == typ {
-				mine = append(mine, a)
+		env := newModeEnv(h, map[*ssa.Parameter]bool{}, map[*ssa.Parameter]string{pType: typ})
+		var mine []memberTest
+		for _, mt := range tests {
+			if env.reach[mt.site.Block()] {
+				etb := newTB(h)
+				etb.Choose = env.choose
+				m2 := mt
+				m2.over = etb.T(mt.overV).String()
+				if mt.alphaV != nil {
+					if s, ok := etb.T(mt.alphaV).constStr(); ok {
+						m2.alpha = s
+					}
+				}
+				mine = append(mine, m2)
 			}
 		}
-		wantOver := "conv[string](extract[2](next(range(" + x + "))))"
-		good := len(mine) == 1 && mine[0].over == wantOver
-		why := fmt.Sprintf("%d per-letter membership loops run for %s, want exactly one over the string that is hashed", len(mine), typ)
-		if len(mine) == 1 && !good {
-			why = "letters checked are those of " + short(mine[0].over) + "; the hashed string is " + x
-		}
-		c.check(good, "GUARD", "alphabet loop for "+typ+" over the hashed string", h.Pos(), "every letter of the normalised sequence is tested with strings.Contains(alphabet, letter); a miss returns an error", why)
-		if len(mine) != 1 {
+		key := "alphabet test for " + typ + " over the hashed string"
+		switch {
+		case len(mine) == 0:
+			c.undecided("GUARD", key, h.Pos(), "no per-letter membership test against a constant alphabet recognised for "+typ)
+			continue
+		case len(mine) > 1:
+			c.undecided("GUARD", key, h.Pos(), fmt.Sprintf("%d membership tests reachable for %s", len(mine), typ))
 			continue
 		}
-		al := mine[0].alpha
+		mt := mine[0]
+		st := holds
+		why := ""
+		if mt.over != x {
+			st = unknown
+			if len(opaqueParts(parseOrNil(mt.over), vocabOf(x))) == 0 {
+				st, why = broken, "the letters checked are those of "+short(mt.over)+"; the string that is hashed is "+x+": a letter can be validated in one spelling and hashed in another"
+			} else {
+				why = "letters checked are those of " + short(mt.over)
+			}
+		}
+		c.judge(st, "GUARD", key, mt.site.Pos(), "every letter of the normalised sequence is tested against the alphabet; a miss returns an error", why)
+		al := mt.alpha
+		if al == "" {
+			c.undecided("TABLE", "alphabet for "+typ, mt.site.Pos(), "the alphabet is not a constant")
+			continue
+		}
 		if typ == "PROTEIN" {
 			wantSet := aa20 + "UO*BXZ"
-			c.check(sameSet(al, wantSet), "TABLE", "protein alphabet", h.Pos(), "20 residues + U O * B X Z", fmt.Sprintf("protein alphabet %q differs from %q", al, wantSet))
+			c.check(sameSet(al, wantSet), "TABLE", "protein alphabet", mt.site.Pos(), "20 residues + U O * B X Z", fmt.Sprintf("protein alphabet %q differs from %q", al, wantSet))
 			continue
 		}
 		var miss []string
@@ -303,13 +271,12 @@ func ruleSeqhash(c *Ctx, prop string) {
 				miss = append(miss, string(r))
 			}
 		}
-		c.check(len(miss) == 0, "TABLE", "nucleotide alphabet ("+typ+")", h.Pos(), "contains the 15 IUPAC codes and U", "nucleotide alphabet "+al+" lacks "+strings.Join(miss, ","))
+		c.check(len(miss) == 0, "TABLE", "nucleotide alphabet ("+typ+")", mt.site.Pos(), "contains the 15 IUPAC codes and U", "nucleotide alphabet "+al+" lacks "+strings.Join(miss, ","))
 		if prop == "C05" && haveComp {
-			// ALPHABET-COMPLEMENT: accepted letters after normalisation
 			accepted := map[rune]bool{}
 			for _, r := range al {
 				if typ == "RNA" && r == 'U' {
-					continue // rewritten to T before the check
+					continue
 				}
 				accepted[r] = true
 			}
@@ -337,14 +304,21 @@ func ruleSeqhash(c *Ctx, prop string) {
 					c.bad("TABLE", fmt.Sprintf("ALPHABET-COMPLEMENT/%s:%s", typ, string(img[k])), h.Pos(), fmt.Sprintf("accepted letters %q all complement to %c: two different double-stranded %s molecules (e.g. %c%c and %c%c) share a reverse complement and therefore a seqhash", string(img[k]), k, typ, img[k][0], img[k][0], img[k][1], img[k][1]))
 				}
 			}
-			if len(c.Obs) > 0 {
-				c.ok("TABLE", "ALPHABET-COMPLEMENT/"+typ+":checked", h.Pos(), fmt.Sprintf("%d accepted letters examined against the complement table", len(letters)))
-			}
+			c.ok("TABLE", "ALPHABET-COMPLEMENT/"+typ+":checked", h.Pos(), fmt.Sprintf("%d accepted letters examined against the complement table", len(letters)))
 		}
 	}
 	// DEPEND
 	raw := rawParamUses(tb, h, 0, "strings.ToUpper")
-	c.check(len(raw) == 0, "DEPEND", "raw sequence only under ToUpper", h.Pos(), "letter case cannot influence the hash", "the raw sequence is used without upper-casing by: "+strings.Join(raw, ", "))
+	stD := holds
+	if len(raw) > 0 {
+		stD = broken
+		for _, r := range raw {
+			if strings.HasPrefix(r, "poly/") { // handed to a same-module helper: not followed
+				stD = unknown
+			}
+		}
+	}
+	c.judge(stD, "DEPEND", "raw sequence only under ToUpper", h.Pos(), "letter case cannot influence the hash", "the raw sequence is used without upper-casing by: "+strings.Join(raw, ", "))
 	// prerequisites
 	if haveComp {
 		orc := oracleComplement()
@@ -359,6 +333,191 @@ func ruleSeqhash(c *Ctx, prop string) {
 	}
 	checkRCShape(c, "TERM-CANON")
 	checkRotateWindow(c, "TERM-CANON")
+}
+
+func parseOrNil(s string) *Term {
+	if t := parseTerm(s); t != nil {
+		return t
+	}
+	return &Term{Op: "unknown"}
+}
+
+// misNormalised: the raw digest-input term mentions the input only through the same std calls as x
+// (ToUpper / ReplaceAll) but nested differently (e.g. ReplaceAll before ToUpper, or U->T applied after
+// the strand/rotation choice).
+func misNormalised(raw *Term, x string) bool {
+	uses := 0
+	bad := false
+	raw.walk(func(t *Term) {
+		if t.isCall("strings.ReplaceAll") || t.isCall("strings.ToUpper") {
+			uses++
+			// the only acceptable occurrences are sub-terms of x itself
+			if !strings.Contains(x, t.String()) {
+				bad = true
+			}
+		}
+	})
+	return uses > 0 && bad
+}
+
+type memberTest struct {
+	site   ssa.Instruction
+	alphaV ssa.Value
+	overV  ssa.Value
+	alpha  string
+	over   string
+}
+
+// membershipTests finds, in Hash and the same-package helpers it calls, loops that test every rune
+// of a string S for membership in an alphabet A (strings.Contains(A, string(r)), ContainsRune, IndexRune,
+// IndexByte). For a helper, S and A are mapped back to the call site's arguments.
+func membershipTests(h *ssa.Function) []memberTest {
+	var out []memberTest
+	scan := func(f *ssa.Function) (alpha, over ssa.Value, site ssa.Instruction) {
+		eachInstr(f, func(i ssa.Instruction) {
+			cl, ok := i.(*ssa.Call)
+			if !ok {
+				return
+			}
+			n := calleeName(cl)
+			var a, r ssa.Value
+			switch n {
+			case "strings.Contains", "strings.ContainsRune", "strings.IndexRune", "strings.IndexByte", "strings.ContainsAny":
+				a, r = cl.Call.Args[0], cl.Call.Args[1]
+			default:
+				return
+			}
+			// r must be (a conversion of) the rune yielded by ranging over a string
+			x := r
+			if cv, ok := x.(*ssa.Convert); ok {
+				x = cv.X
+			}
+			ex, ok := x.(*ssa.Extract)
+			if !ok || ex.Index != 2 {
+				return
+			}
+			nx, ok := ex.Tuple.(*ssa.Next)
+			if !ok || !nx.IsString {
+				return
+			}
+			rg, ok := nx.Iter.(*ssa.Range)
+			if !ok {
+				return
+			}
+			alpha, over, site = a, rg.X, cl
+		})
+		return
+	}
+	if a, o, s := scan(h); s != nil {
+		out = append(out, memberTest{site: s, alphaV: a, overV: o})
+	}
+	// all tests in h itself (there may be one per type)
+	out = out[:0]
+	eachInstr(h, func(i ssa.Instruction) {
+		cl, ok := i.(*ssa.Call)
+		if !ok {
+			return
+		}
+		g := cl.Call.StaticCallee()
+		if g != nil && g != h && pkgOf(g) == pkgOf(h) && g.Blocks != nil {
+			if a, o, s := scan(g); s != nil {
+				mt := memberTest{site: cl}
+				if p, ok := a.(*ssa.Parameter); ok {
+					for k, gp := range g.Params {
+						if gp == p && k < len(cl.Call.Args) {
+							mt.alphaV = cl.Call.Args[k]
+						}
+					}
+				} else {
+					mt.alphaV = a
+					if cst, ok := a.(*ssa.Const); ok {
+						_ = cst
+					}
+				}
+				if p, ok := o.(*ssa.Parameter); ok {
+					for k, gp := range g.Params {
+						if gp == p && k < len(cl.Call.Args) {
+							mt.overV = cl.Call.Args[k]
+						}
+					}
+				}
+				if mt.overV != nil {
+					out = append(out, mt)
+				}
+			}
+		}
+	})
+	// direct tests in h: one per call site
+	eachInstr(h, func(i ssa.Instruction) {
+		cl, ok := i.(*ssa.Call)
+		if !ok {
+			return
+		}
+		switch calleeName(cl) {
+		case "strings.Contains", "strings.ContainsRune", "strings.IndexRune", "strings.IndexByte", "strings.ContainsAny":
+		default:
+			return
+		}
+		x := cl.Call.Args[1]
+		if cv, ok := x.(*ssa.Convert); ok {
+			x = cv.X
+		}
+		ex, ok := x.(*ssa.Extract)
+		if !ok || ex.Index != 2 {
+			return
+		}
+		nx, ok := ex.Tuple.(*ssa.Next)
+		if !ok || !nx.IsString {
+			return
+		}
+		rg, ok := nx.Iter.(*ssa.Range)
+		if !ok {
+			return
+		}
+		out = append(out, memberTest{site: cl, alphaV: cl.Call.Args[0], overV: rg.X})
+	})
+	return out
+}
+
+// checkHashFormat: TERM-FORMAT under one valuation.
+func checkHashFormat(c *Ctx, h *ssa.Function, tb *TermBuilder, env *modeEnv, sum *ssa.Call, name, tl string, circ, ds bool) {
+	sr := successReturn(tb, h, 1)
+	if sr == nil {
+		c.undecided("TERM-FORMAT", name, h.Pos(), "no single success return")
+		return
+	}
+	ps, _ := tb.pieces(tb.T(sr.Results[0]))
+	var flat []string
+	opaque := false
+	for _, p := range ps {
+		if s, ok := p.constStr(); ok {
+			flat = append(flat, s)
+			continue
+		}
+		if p.isCall("encoding/hex.EncodeToString") && p.Args[0].Op == "slice" && p.Args[0].Args[0].String() == tb.T(sum).String() {
+			flat = append(flat, "<hex>")
+			continue
+		}
+		opaque = true
+		flat = append(flat, "?")
+	}
+	got := strings.Join(flat, "")
+	cl, sl := "L", "S"
+	if circ {
+		cl = "C"
+	}
+	if ds {
+		sl = "D"
+	}
+	want := "v1_" + tl + cl + sl + "_<hex>"
+	st := holds
+	if got != want {
+		st = broken
+		if opaque {
+			st = unknown
+		}
+	}
+	c.judge(st, "TERM-FORMAT", name, sr.Pos(), want, "result is "+got+"; want "+want+" (v1_ + type/topology/strand letters + _ + 64 hex digits of Sum256 of the canonical string)")
 }
 
 func sameSet(a, b string) bool {
@@ -377,21 +536,86 @@ func sameSet(a, b string) bool {
 	return len(a) == len(b)
 }
 
-// checkRCShape: ReverseComplement = reversal of Map(ComplementBase) (prerequisite shared with C11).
-func checkRCShape(c *Ctx, rule string) {
-	f := c.W.fn("transform", "ReverseComplement")
+// rcState: is transform.ReverseComplement exactly reversal∘complement?
+//   holds   – descending fill of strings.Map(ComplementBase, s), or Reverse(Complement(s)) with Reverse a
+//             recognised reversal and Complement = strings.Map(ComplementBase, s)
+//   broken  – a recognised form with a special case that returns the input (or a partial result)
+//             for some non-empty strings
+//   unknown – anything else
+func rcState(w *World) (int, string) {
+	f := w.fn("transform", "ReverseComplement")
 	if f == nil {
-		c.missing(rule, "prerequisite C11: ReverseComplement", "transform.ReverseComplement")
-		return
+		return unknown, "transform.ReverseComplement not found"
 	}
-	c.useFn(f)
+	compl := "call[strings.Map](func[poly/transform.ComplementBase], param[0])"
 	tb := newTB(f)
-	src, why := descendingFill(tb, f)
-	good := src != nil && src.String() == "call[strings.Map](func[poly/transform.ComplementBase], param[0])"
-	c.check(good, rule, "prerequisite C11: ReverseComplement = reversal∘complement", f.Pos(), "as decided by C11", "ReverseComplement is not exactly reversal∘complement: "+why)
+	alts := resultAlts(tb, f, 0)
+	// special cases returning the input unchanged
+	for _, a := range alts {
+		if a.T.isParam(0) && len(alts) > 1 {
+			emptyOnly := false
+			for _, at := range a.Cond.atoms() {
+				s := at.Atom.String()
+				if !at.Neg && (s == "binop[==](call[builtin:len](param[0]), const[0])" || s == `binop[==](const[""], param[0])` || s == `binop[==](param[0], const[""])`) {
+					emptyOnly = true
+				}
+			}
+			if !emptyOnly {
+				return broken, "a special case returns the input unchanged under " + short(a.Cond.String()) + ": a one-letter sequence is not complemented"
+			}
+		}
+	}
+	if src, _ := descendingFill(tb, f); src != nil {
+		if src.String() == compl {
+			return holds, ""
+		}
+		if len(opaqueParts(src, vocabOf(compl))) == 0 {
+			return broken, "ReverseComplement reverses " + short(src.String()) + ", not the complemented input"
+		}
+		return unknown, "reverses " + short(src.String())
+	}
+	// Reverse(Complement(s))
+	tb2 := newTB(f)
+	tb2.NoInline = true
+	if len(alts) == 1 {
+		t := tb2.T(alts[0].Ret.Results[0])
+		if t.isCall("poly/transform.Reverse") && (t.Args[0].isCall("poly/transform.Complement") && t.Args[0].Args[0].isParam(0) || t.Args[0].String() == compl) {
+			rv, cm := w.fn("transform", "Reverse"), w.fn("transform", "Complement")
+			okR, okC := false, t.Args[0].String() == compl
+			if rv != nil {
+				rtb := newTB(rv)
+				if src, _ := descendingFill(rtb, rv); src != nil && src.isParam(0) {
+					okR = true
+				}
+			}
+			if cm != nil && !okC {
+				ct, _, ok := singleReturnTerm(cm, 0)
+				okC = ok && ct.String() == compl
+			}
+			if okR && okC {
+				return holds, ""
+			}
+			return unknown, "Reverse/Complement are not in a recognised form"
+		}
+		if t.isCall("poly/transform.Complement") && t.Args[0].isCall("poly/transform.Reverse") {
+			// complement of the reverse is the same function
+			return unknown, "Complement(Reverse(s)) form"
+		}
+	}
+	return unknown, "not a recognised reversal of the complemented input"
 }
 
-// checkRotateWindow: RotateSequence(s) = (s+s)[k : k+len(s)], k = boothLeastRotation(s).
+func checkRCShape(c *Ctx, rule string) {
+	if f := c.W.fn("transform", "ReverseComplement"); f != nil {
+		c.useFn(f)
+		st, why := rcState(c.W)
+		c.judge(st, rule, "prerequisite C11: ReverseComplement = reversal∘complement", f.Pos(), "as decided by C11", "ReverseComplement is not exactly reversal∘complement: "+why)
+		return
+	}
+	c.missing(rule, "prerequisite C11: ReverseComplement", "transform.ReverseComplement")
+}
+
+// checkRotateWindow: RotateSequence(s) = rotation of s at boothLeastRotation(s).
 func checkRotateWindow(c *Ctx, rule string) {
 	f := c.W.fn("seqhash", "RotateSequence")
 	if f == nil {
@@ -399,33 +623,14 @@ func checkRotateWindow(c *Ctx, rule string) {
 		return
 	}
 	c.useFn(f)
-	tb := newTB(f)
-	rt, _, ok := singleReturnTerm(f, 0)
-	good := false
-	why := "several returns"
-	if ok {
-		why = "result is " + short(rt.String())
-		if rt.Op == "slice" {
-			k := "call[poly/seqhash.boothLeastRotation](param[0])"
-			dbl := rt.Args[0]
-			isDouble := dbl.String() == "binop[+](param[0], param[0])"
-			if dbl.isCall("(*strings.Builder).String") {
-				ws := bufWrites(f, tb, dbl.Args[0].String())
-				isDouble = len(ws) == 2 && ws[0].arg.isParam(0) && ws[1].arg.isParam(0)
-			}
-			hb, _ := rt.Args[2].linear()
-			_ = hb
-			hiOK := rt.Args[2].String() == "binop[+](call[builtin:len](param[0]), "+k+")" || rt.Args[2].String() == "binop[+]("+k+", call[builtin:len](param[0]))"
-			good = isDouble && rt.Args[1].String() == k && hiOK
-		}
-	}
-	c.check(good, rule, "RotateSequence = (s+s)[k:k+len(s)], k=boothLeastRotation(s)", f.Pos(), "a length-len(s) window of the doubled string: a rotation whenever it returns, also for the empty string", why+"; want (s+s)[k:k+len(s)]")
+	st := isRotateBody(f)
+	c.judge(st, rule, "RotateSequence = rotation of s at boothLeastRotation(s)", f.Pos(), "a length-len(s) window of the doubled string (or s[k:]+s[:k]): a rotation whenever it returns, also for the empty string", "RotateSequence does not return (s+s)[k:k+len(s)] / s[k:]+s[:k] with k = boothLeastRotation(s), or it does arithmetic that fails for the empty string (modulo by the length)")
 }
 
 func ruleC12(c *Ctx) {
 	c.Decided = []string{
-		"TERM: RotateSequence(s) returns (s+s)[k:k+len(s)] with k = boothLeastRotation(s): by Go's slice bounds the result is a length-len(s) window of s+s, i.e. a rotation (same letters, same cyclic order), and the empty string is handled without arithmetic on its length",
-		"ORDER-DIR: every ordering comparison between sequence bytes in boothLeastRotation is 'new character < reference character' on uint8 (minimising, bytewise)",
+		"TERM: RotateSequence(s) returns the rotation of s at k = boothLeastRotation(s) written as a window of the doubled string or as s[k:]+s[:k]: same letters, same cyclic order; no division by the length (empty string)",
+		"ORDER-DIR: every ordering comparison between bytes of the scanned string is 'current character < reference character' (minimising, bytewise); BYTEWISE: the scan visits every byte index",
 		"REACHING: every index into the failure table / doubled string is built from the reaching definitions of the loop-carried variables at that access (no stale copy of leastRotationIndex or failure)",
 	}
 	c.Undec = []string{"MINIMALITY: correctness of the failure-function scan (that k is the start of the least rotation) and k < len(s): algorithmic, needs a loop-invariant proof; C04/C05 name it as their assumed lemma"}
@@ -436,11 +641,35 @@ func ruleC12(c *Ctx) {
 	w := c.W
 	b := w.fn("seqhash", "boothLeastRotation")
 	if b == nil {
-		c.missing("ORDER-DIR", "boothLeastRotation", "seqhash.boothLeastRotation")
+		c.missingHelper("ORDER-DIR", "boothLeastRotation", "seqhash.boothLeastRotation")
 		return
 	}
 	c.useFn(b)
-	// the current character: t8 = doubled[characterIndex]
+	// the main scan counter: a phi stepping by +1 whose loop condition compares it with a length
+	isCounter := func(v ssa.Value) bool {
+		ph, ok := v.(*ssa.Phi)
+		if !ok {
+			return false
+		}
+		step := false
+		for _, e := range ph.Edges {
+			if be, ok := e.(*ssa.BinOp); ok && be.Op == token.ADD && be.X == ssa.Value(ph) {
+				if k, ok := be.Y.(*ssa.Const); ok && k.Value != nil && k.Value.ExactString() == "1" {
+					step = true
+				}
+			}
+		}
+		return step
+	}
+	byteIdx := func(v ssa.Value) (ssa.Value, bool) {
+		switch lk := v.(type) {
+		case *ssa.Lookup:
+			return lk.Index, true
+		case *ssa.Index:
+			return lk.Index, true
+		}
+		return nil, false
+	}
 	n := 0
 	eachInstr(b, func(i ssa.Instruction) {
 		bo, ok := i.(*ssa.BinOp)
@@ -456,33 +685,39 @@ func ruleC12(c *Ctx) {
 			return
 		}
 		n++
-		// left operand must be the byte at the loop's characterIndex (a phi stepping by +1), op must be <
-		var lkIndex ssa.Value
-		switch lk := bo.X.(type) {
-		case *ssa.Lookup:
-			lkIndex = lk.Index
-		case *ssa.Index:
-			lkIndex = lk.Index
-		}
-		good := bo.Op == token.LSS && lkIndex != nil
-		if good {
-			ph, isPhi := lkIndex.(*ssa.Phi)
-			good = isPhi
-			if isPhi {
-				step := false
-				for _, e := range ph.Edges {
-					if be, ok := e.(*ssa.BinOp); ok && be.Op == token.ADD && be.X == ssa.Value(ph) {
-						step = true
-					}
-				}
-				good = step
+		lx, okL := byteIdx(bo.X)
+		rx, okR := byteIdx(bo.Y)
+		st := unknown
+		if okL && okR {
+			lCur, rCur := isCounter(lx), isCounter(rx)
+			less := bo.Op == token.LSS || bo.Op == token.LEQ
+			switch {
+			case lCur && !rCur && less, rCur && !lCur && !less:
+				st = holds
+			case lCur && !rCur && !less, rCur && !lCur && less:
+				st = broken
 			}
 		}
-		c.check(good, "ORDER-DIR", "character < reference", bo.Pos(), "the scanned character is compared with '<' against the reference (smallest rotation wins)", "a byte comparison in the rotation scan is not 'current character < reference': the scan would select a greater rotation")
+		c.judge(st, "ORDER-DIR", "character < reference", bo.Pos(), "the scanned character is compared with '<' against the reference (smallest rotation wins)", "a byte comparison in the rotation scan reads 'current character > reference': the scan selects a greater rotation")
 	})
 	if n == 0 {
-		c.bad("ORDER-DIR", "comparisons", b.Pos(), "no byte ordering comparison found (unrecognised shape)")
+		c.undecided("ORDER-DIR", "comparisons", b.Pos(), "no byte ordering comparison found")
 	}
+	// BYTEWISE: ranging over a string yields rune starts only
+	eachInstr(b, func(i ssa.Instruction) {
+		if nx, ok := i.(*ssa.Next); ok && nx.IsString {
+			// is the index used to address bytes?
+			used := false
+			for _, r := range *nx.Referrers() {
+				if ex, ok := r.(*ssa.Extract); ok && ex.Index == 1 && len(*ex.Referrers()) > 0 {
+					used = true
+				}
+			}
+			if used {
+				c.bad("ORDER-DIR", "BYTEWISE: scan visits every byte index", nx.Pos(), "the scan ranges over the string by rune and uses the rune's start offset as byte index: continuation bytes of multi-byte sequences are never scanned, so byte strings outside ASCII are not rotated to their least rotation")
+			}
+		}
+	})
 	// REACHING
 	webOf := map[ssa.Value]string{}
 	for _, blk := range b.Blocks {
@@ -504,7 +739,6 @@ func ruleC12(c *Ctx) {
 		default:
 			return
 		}
-		// expand through arithmetic to phi leaves
 		var leaves []*ssa.Phi
 		var walk func(v ssa.Value, d int)
 		walk = func(v ssa.Value, d int) {
@@ -529,7 +763,6 @@ func ruleC12(c *Ctx) {
 			if name == "" {
 				continue
 			}
-			// a newer phi of the same variable that dominates this access and is fed (transitively) by l
 			for other, on := range webOf {
 				op := other.(*ssa.Phi)
 				if on != name || op == l {
